@@ -3,7 +3,7 @@ from ..facts import AnchorMissing, callee_def, op_place, op_const, is_bare
 from ..util import (SUBR, TEXTR, RTRAIT, ends, is_callee, field_accesses, site, fn_key,
                     consumer_of_ref, callee_method, dominated_by_true_edge, require,
                     closure_bodies_created_in, transitive_closures, edge_is_true, src_field,
-                    edges_where, unreachable_without_edges, direct_place)
+                    edges_where, unreachable_without_edges, direct_place, find_dispatch)
 
 EXPLANATION = (
     "Static decision of where the footnote state lives and who touches it: the per-render link "
@@ -33,7 +33,9 @@ def check(ctx):
              "the rendering walk; with the option off the decorator gets an empty list")
     ctx.rule("C08-F", "default TextDecorator::finalise labels entry i as i+1 and prints the url itself")
     ctx.rule("C08-G", "a link whose children are all shallow-empty builds no Link node")
-    for fn in (rule_a, rule_b, rule_c, rule_d, rule_e, rule_f, rule_g):
+    ctx.rule("C08-H", "a Link node's target and children are taken apart only by the Link arm of the render walk (which numbers it) "
+             "and by the estimate / emptiness / debug functions: no other code renders a link's content past the numbering")
+    for fn in (rule_a, rule_b, rule_c, rule_d, rule_e, rule_f, rule_g, rule_h):
         ctx.guard(fn.__name__.replace("rule_", "C08-").upper(), fn)
 
 
@@ -350,3 +352,51 @@ def rule_g(ctx):
                         okc = True
         ctx.check(okc, "C08-G", "shallow-empty:%s-is-whitespace-insensitive" % vn, ise.term(tb[0])["span"] if tb else ise.span, ise.id,
                   "a link whose only content is white space must count as empty (is_shallow_empty must test the trimmed text)")
+
+
+LINK_READERS = {
+    "do_render_node": "the Link arm (checked: inside the arm's region)",
+    "RenderNode::calc_size_estimate": "size estimate",
+    "precalc_size_estimate": "schedules the children for estimation",
+    "RenderNode::is_shallow_empty": "emptiness test used by the link reducer (C08-G)",
+    "RenderNode::write_self": "debug dump of the render tree",
+}
+
+
+def rule_h(ctx):
+    """Footnote numbers are allocated by start_link/end_link, reached only from the Link arm of do_render_node.  Any
+    other code on the render route that destructures a Link (e.g. a shortcut that prints a link's text directly)
+    would show the link without a number and shift every later one."""
+    F = ctx.facts
+    info = F.adt("RenderNodeInfo")
+    lv = [v["discr"] for v in info["variants"] if v["name"] == "Link"][0]
+    drn = F.one("do_render_node")
+    disp = find_dispatch(drn, "RenderNodeInfo", 10)
+    tb = [x for v, x in drn.term(disp)["targets"] if v == lv]
+    require(len(tb) == 1, "Link arm of do_render_node")
+    region = drn.reach_from(tb[0], avoid=[disp])
+    n = 0
+    for b in F.bodies.values():
+        if b.raw.get("from_expansion") and b.kind != "Closure":
+            continue  # derived Clone / Debug / PartialEq
+        hits = [(bb, where) for (bb, where, pl, acc) in b.all_places()
+                if any(isinstance(e, dict) and e.get("dc") == "Link" for e in pl["p"]) and "RenderNodeInfo" in str(b.locals[pl["l"]].get("ty", "")) + " ".join(
+                    str(e.get("o", "")) + str(e.get("ty", "")) for e in pl["p"] if isinstance(e, dict))]
+        if not hits:
+            continue
+        k = fn_key(b)
+        n += 1
+        if k not in LINK_READERS:
+            ctx.violation("C08-H", "Link-destructured@%s" % k, site(b, hits[0][0], hits[0][1]), b.id,
+                          "this code takes a Link node apart outside the Link arm of the render walk: its text could be shown "
+                          "without going through start_link/end_link (no footnote number, later numbers shift)")
+            continue
+        if k == "do_render_node":
+            outside = [h for h in hits if h[0] not in region and h[0] != disp]
+            ctx.check(not outside, "C08-H", "Link-destructured@do_render_node:only-in-Link-arm",
+                      site(b, outside[0][0], outside[0][1]) if outside else b.span, b.id, "")
+        else:
+            ctx.ok("C08-H", "Link-destructured@%s" % k, b.span, b.id, LINK_READERS[k], how="table")
+    ctx.floor("C08-H", "functions that destructure a Link node", n, 4)
+    sl = drn.calls(lambda cd, t: ends(cd, "TextRenderer::<D>::start_link"))
+    ctx.check(len(sl) == 1 and sl[0][0] in region, "C08-H", "Link-arm:calls-start_link", drn.term(tb[0])["span"], drn.id, "")
